@@ -401,6 +401,8 @@ func worldFeatures(w *gen.World, c *refClosure) (nontrivial bool, obs map[string
 	return
 }
 
+var bundleSeq int
+
 func bundleRun(which string, env *fw.Env, w *gen.World, emptyAllowedOK bool) fw.Result {
 	res := fw.Result{Hash: fw.HashString(worldKey(w)), Case: worldDesc(w)}
 	c := computeClosure(w)
@@ -415,7 +417,8 @@ func bundleRun(which string, env *fw.Env, w *gen.World, emptyAllowedOK bool) fw.
 		bo.Faults = []fault{{At: 1 + int(h/3)%c.Events, Mode: "warning-if-finder"}, {At: 1 + int(h/7)%c.Events, Mode: "warning-if-finder"}}
 		res.Obs["worlds_with_finder_warnings"] = 1
 	}
-	r := runBuild(w, filepath.Join(env.Scratch, "bundle"), bo)
+	bundleSeq++
+	r := runBuild(w, filepath.Join(env.Scratch, []string{"bundle", "b2/bundle", "b3/deeper/bundle"}[bundleSeq%3]), bo)
 	if r.NewErr != nil {
 		return fw.Result{Verdict: fw.Inconclusive, Msg: "harness: " + r.NewErr.Error(), Case: res.Case}
 	}
